@@ -674,7 +674,9 @@ func anchFamily(maxSize int, c01only bool) []Pat {
 
 func landFamily() []Pat {
 	leads := []*Node{rep(set(false, 'a', 'b'), 0, -1, false), rep(set(false, 'a', 'b'), 0, -1, true), rep(set(false, 'a', 'b'), 1, -1, false), rep(anyc(), 0, -1, false), rep(set(true, 'c'), 0, -1, true)}
-	mids := []*Node{lit('a'), lit('b'), set(false, 'a', 'b'), rep(set(false, 'a', 'b'), 1, 2, false), rep(lit('b'), 2, 2, false), rep(lit('a'), 1, -1, false), rep(set(false, 'a', 'b'), 0, 1, false), litStr("ab")}
+	mids := []*Node{lit('a'), lit('b'), set(false, 'a', 'b'), rep(set(false, 'a', 'b'), 1, 2, false), rep(lit('b'), 2, 2, false), rep(lit('a'), 1, -1, false), rep(set(false, 'a', 'b'), 0, 1, false), litStr("ab"),
+		// landmarks that are alternations of literals of different lengths (one a proper part of the other)
+		{K: KGroup, Kids: []*Node{alt(litStr("aab"), lit('b'))}}, capg(alt(litStr("ab"), lit('b'))), {K: KGroup, Kids: []*Node{alt(lit('a'), litStr("ba"))}}}
 	seps := []*Node{lit('c'), lit('a'), lit('b')}
 	ends := []*Node{nil, asrt('$')}
 	var trees []*Node
